@@ -6,7 +6,7 @@
    instant, generation read, upload attempt if any) and the instant the task returned. *)
 From Coq Require Import List Bool NArith.
 Import ListNotations.
-From Setec Require Import Base.SMap Base.Bytes Server.KV Server.KVProofs Server.Backup Server.BackupProofs Corr.Common Corr.Run_C17.
+From Setec Require Import Base.SMap Base.Bytes Acl.Glob Server.KV Server.KVProofs Server.DB Server.Backup Server.BackupProofs Corr.Common Corr.Run_C17.
 Open Scope N_scope.
 
 (* it terminates when the context is cancelled: the task returns exactly at the cancellation
@@ -119,6 +119,19 @@ Theorem C17_caught_up_each_wake : forall tl its x, backup_run tl = Some (its, x)
 Proof. exact run_caught_up_each_wake. Qed.
 Print Assumptions C17_caught_up_each_wake.
 
+(* the first round of EVERY lifetime: "nothing uploaded yet" differs from the generation a
+   just-opened database reports - created or found existing (a restart) - and from every
+   later one; so the first iteration, at the instant the task starts, uploads the file as it
+   is, also when nothing is ever written in this lifetime *)
+Theorem C17_first_round_uploads : forall tl,
+  (forall (V : Type) (k : kvs V), gen (db_open k) <> no_upload_yet /\ gen (db_create V) <> no_upload_yet)
+  /\ (forall r t, gen_at (ok_writes tl) r t <> no_upload_yet)
+  /\ (forall its x, backup_run tl = Some (its, x) ->
+       exists it rest a, its = it :: rest /\ i_t it = 0 /\ i_up it = Some a
+                         /\ a_t a = 0 /\ a_gen a = open_gen + count_le 0 (ok_writes tl)).
+Proof. exact first_round_uploads. Qed.
+Print Assumptions C17_first_round_uploads.
+
 (* the monitors evaluated on the observed log mean what they say *)
 Theorem C17_monitor_bytes_sound : forall l last, mon_bytes last l = true ->
   forall pre b1 mid b2 post, l = pre ++ (true, b1) :: mid ++ (true, b2) :: post ->
@@ -151,7 +164,7 @@ Example demo_run :
 Proof. vm_compute. reflexivity. Qed.
 
 Example demo_accepted :
-  Run_C17.check (Sc [EPut 36500 true [x6b] 1; EPut 40500 true [x6b] 2; EPut 100300 false [x6b] 3; EPut 400500 true [x6b] 4]
+  Run_C17.check (Sc [] [EPut 36500 true [x6b] 1; EPut 40500 true [x6b] 2; EPut 100300 false [x6b] 3; EPut 400500 true [x6b] 4]
                     [200400] [U 0 true 0; U 2000 false 0; U 70000 true 1] 1000700
                     [(0, 1, true); (60000, 3, false); (122000, 3, true); (252000, 4, true); (432000, 5, true)]
                     [1; 2; 2; 3; 4] (Some 1000700) 5 1 4) = true.
@@ -168,11 +181,11 @@ Example bad_body_rejected : mon_snapshot [36500] 0 [(0, 0, true)] = false /\ mon
 Proof. vm_compute. auto. Qed.
 (* no retry after a failure / a task that outlives its context: rejected by the comparison *)
 Example no_retry_rejected :
-  Run_C17.check (Sc [] [] [U 0 false 0] 200700 [(0, 1, false)] [1] (Some 200700) 1 0 1) = false.
+  Run_C17.check (Sc [] [] [] [U 0 false 0] 200700 [(0, 1, false)] [1] (Some 200700) 1 0 1) = false.
 Proof. vm_compute. reflexivity. Qed.
 Example late_exit_rejected :
-  Run_C17.check (Sc [] [] [] 200700 [(0, 1, true)] [1] (Some 240000) 1 0 1) = false
-  /\ Run_C17.check (Sc [] [] [] 200700 [(0, 1, true)] [1] None 1 0 1) = false.
+  Run_C17.check (Sc [] [] [] [] 200700 [(0, 1, true)] [1] (Some 240000) 1 0 1) = false
+  /\ Run_C17.check (Sc [] [] [] [] 200700 [(0, 1, true)] [1] None 1 0 1) = false.
 Proof. vm_compute. auto. Qed.
 
 (* the generation counter advanced by a save that FAILED (at 100.3 s): the task uploads the
@@ -181,9 +194,9 @@ Proof. vm_compute. auto. Qed.
 Example unchanged_bytes_rejected : mon_bytes None [(true, 1); (false, 2); (true, 1)] = false.
 Proof. vm_compute. reflexivity. Qed.
 Example failed_save_bumped_generation_rejected :
-  Run_C17.check (Sc [EPut 100300 false [x6b] 1] [] [] 300700 [(0, 1, true); (120000, 1, true)] [1; 1] (Some 300700) 2 0 1) = false
-  /\ Run_C17.check (Sc [EPut 100300 false [x6b] 1] [] [] 300700 [(0, 1, true)] [1] (Some 300700) 2 0 1) = false
-  /\ Run_C17.check (Sc [EPut 100300 false [x6b] 1] [] [] 300700 [(0, 1, true)] [1] (Some 300700) 1 0 1) = true.
+  Run_C17.check (Sc [] [EPut 100300 false [x6b] 1] [] [] 300700 [(0, 1, true); (120000, 1, true)] [1; 1] (Some 300700) 2 0 1) = false
+  /\ Run_C17.check (Sc [] [EPut 100300 false [x6b] 1] [] [] 300700 [(0, 1, true)] [1] (Some 300700) 2 0 1) = false
+  /\ Run_C17.check (Sc [] [EPut 100300 false [x6b] 1] [] [] 300700 [(0, 1, true)] [1] (Some 300700) 1 0 1) = true.
 Proof. vm_compute. auto. Qed.
 
 (* which calls are writes: put 1, put 2 (new version), put 2 again (same bytes: NOT a write),
@@ -202,7 +215,30 @@ Proof. vm_compute. reflexivity. Qed.
    three times over: by the comparison, by the final generation, by the bytes at the end *)
 Example delete_version_last_write :
   let evs := [EPut 10500 true [x6b] 1; EPut 20500 true [x6b] 2; EDelV 70500 true [x6b] 2] in
-  Run_C17.check (Sc evs [] [] 400700 [(0, 1, true); (60000, 3, true); (120000, 4, true)] [1; 2; 3] (Some 400700) 4 0 3) = true
-  /\ Run_C17.check (Sc evs [] [] 400700 [(0, 1, true); (60000, 3, true)] [1; 2] (Some 400700) 3 0 0) = false
-  /\ Run_C17.check (Sc evs [] [] 400700 [(0, 1, true); (60000, 3, true); (120000, 4, true)] [1; 2; 3] (Some 400700) 4 0 2) = false.
+  Run_C17.check (Sc [] evs [] [] 400700 [(0, 1, true); (60000, 3, true); (120000, 4, true)] [1; 2; 3] (Some 400700) 4 0 3) = true
+  /\ Run_C17.check (Sc [] evs [] [] 400700 [(0, 1, true); (60000, 3, true)] [1; 2] (Some 400700) 3 0 0) = false
+  /\ Run_C17.check (Sc [] evs [] [] 400700 [(0, 1, true); (60000, 3, true); (120000, 4, true)] [1; 2; 3] (Some 400700) 4 0 2) = false.
+Proof. vm_compute. auto. Qed.
+
+(* a restart: the file was written in an earlier lifetime (put 1, put 2 on k), the process opens
+   it and nothing is written: the first round uploads it (generation 1 of this lifetime), then
+   quiet; a run without that upload is rejected.  A delete-version in the second lifetime is
+   classified from the state the first lifetime left (version 2 exists: a write) *)
+Example restart_uploads_at_first_round :
+  let prior := [EPut 0 true [x6b] 1; EPut 0 true [x6b] 2] in
+  Run_C17.check (Sc prior [] [] [] 300700 [(0, 1, true)] [1] (Some 300700) 1 0 1) = true
+  /\ Run_C17.check (Sc prior [] [] [] 300700 [] [] (Some 300700) 1 0 0) = false
+  /\ Run_C17.check (Sc prior [EDelV 70500 true [x6b] 2] [] [] 300700 [(0, 1, true); (120000, 2, true)] [1; 2] (Some 300700) 2 0 2) = true
+  /\ Run_C17.check (Sc [] [EDelV 70500 true [x6b] 2] [] [] 300700 [(0, 1, true); (120000, 2, true)] [1; 2] (Some 300700) 2 0 2) = false.
+Proof. vm_compute. auto. Qed.
+
+(* the task as wired by server.New: first upload at start-up, the write at 1.5 s uploaded one
+   interval later, nothing after the server's context ended at 61.7 s; no upload at all (a
+   context that was already over when the task started) is rejected, and so is an upload after
+   the context ended at 2.7 s *)
+Example wiring_observed :
+  Run_C17.check (ScW [] [EPut 1500 true [x6b] 1] [] 61700 [(0, 1, true); (60000, 2, true)] [1; 2] 2 2) = true
+  /\ Run_C17.check (ScW [] [EPut 1500 true [x6b] 1] [] 61700 [] [] 2 0) = false
+  /\ Run_C17.check (ScW [] [EPut 1500 true [x6b] 1] [] 2700 [(0, 1, true); (60000, 2, true)] [1; 2] 2 2) = false
+  /\ Run_C17.check (ScW [] [EPut 1500 true [x6b] 1] [] 2700 [(0, 1, true)] [1] 2 1) = true.
 Proof. vm_compute. auto. Qed.
